@@ -45,7 +45,7 @@ TABLE_NAMES = ["t/a", "select", "Mixed/Case_1", "x", "order/by", "group", "a/b/c
                "a_b", "T1/t_2", "pragma", "rowid/oid", "u__v"]
 FIELD_TYPES = {
     "s": "string", "n": "varint", "f": "float", "b": "bytes", "t": "datetime", "p": "path", "ip": "net.ipaddress", "select": "string", "Order": "varint",
-    "fs": "filesize", "from": "string", "group": "varint", "Key": "bytes", "flag": "boolean", "u": "uri", "w": "uint32", "class": "float", "values": "datetime",
+    "fs": "filesize", "from": "string", "pid": "varint", "name": "string", "pidvarintname": "string", "group": "varint", "Key": "bytes", "flag": "boolean", "u": "uri", "w": "uint32", "class": "float", "values": "datetime",
 }  # fmt: skip
 SQL_KEYWORDS = {"select", "order/by", "group", "table", "index/from", "from", "Order", "values"}
 
@@ -55,7 +55,7 @@ def budget(tier):
 
 
 def wall_cap(tier):
-    return 300 if tier == "quick" else 3600
+    return 300 if tier == "quick" else 1500
 
 
 # -- generation ---------------------------------------------------------------------------------
@@ -63,7 +63,7 @@ def gen_sql_value(rng, typ):
     if rng.random() < 0.15:
         return None
     if typ == "string":
-        return rng.choice(["", "x", "héllo wörld", "quote'\"s", "line\nbreak\r\n", "tab\t;,", "emoji \U0001F600", " lead", "NULL", "0", "007", "1e3", "-1.50", "0x10", gen.gen_text(rng, rng.randrange(0, 12))])
+        return rng.choice(["", "x", "héllo wörld", "quote'\"s", "line\nbreak\r\n", "tab\t;,", "emoji \U0001F600", " lead", "NULL", "0", "007", "1e3", "-1.50", "0x10", "nul\x00in", "\u200b", "\ufeffbom", gen.gen_text(rng, rng.randrange(0, 12))])
     if typ in ("varint", "filesize"):
         v = rng.choice([0, 1, -1, 2**63 - 1, -(2**63), 2**31, 255, 2**53 + 1, rng.randrange(-(10**12), 10**12)])
         return enc_value(abs(v) if typ == "filesize" and v != -(2**63) else (v if typ != "filesize" else 2**63 - 1))
@@ -110,8 +110,24 @@ def generate(rng, tier, index):
             pool[k] = [n, [[FIELD_TYPES[f], f] for f in fields]]
         return k
 
+    twins = None
+    if rng.random() < 0.2:
+        # two descriptors of one type whose identifiers (name, 32-bit hash) coincide: the hash input is the bare
+        # concatenation of field names and type names
+        twins = (names[0], ["pid", "name"], ["pidvarintname"])
+        assert gen.desc_hash(names[0], [["varint", "pid"], ["string", "name"]]) == gen.desc_hash(names[0], [["string", "pidvarintname"]])
     for i in range(n_writes):
         n = rng.choice(names)
+        if twins and n == twins[0] and rng.random() < 0.6:
+            fields = list(rng.choice(twins[1:]))
+            for f in fields:
+                if f not in cols[n]:
+                    cols[n].append(f)
+            k = desc_key(n, fields)
+            ops.append({"op": "write", "desc": k, "values": [gen_sql_value(rng, FIELD_TYPES[f]) for f in fields]})
+            if mode != "plain" and rng.random() < 0.4:
+                ops.append({"op": "observe", "conn": 0})
+            continue
         if rng.random() < 0.25:
             extra = [f for f in fnames if f not in cols[n]]
             if extra:
@@ -213,6 +229,8 @@ class Workload:
             k = op["op"]
             if k == "write":
                 self.do_write(op)
+            elif self.closed:
+                continue
             elif k == "flush":
                 self.call("flush", self.writer.flush, commits=True)
             elif k == "reopen":
@@ -259,6 +277,8 @@ class Workload:
             return False
 
     def do_write(self, op):
+        if self.closed:
+            return  # writes after close are outside the property
         name, fields = self.pool.fields(op["desc"])
         rec = self.pool.make(op["desc"], op["values"])
         cells = collections.OrderedDict()
@@ -571,7 +591,8 @@ class Workload:
             for key, (n, fields) in self.plan["pool"].items():
                 if n == t:
                     for ty, f in fields:
-                        ftypes[f] = ty
+                        if f in self.columns.get(t, []):  # only columns some written descriptor had
+                            ftypes[f] = ty
             for i, (r, cells) in enumerate(zip(got, exp)):
                 for f, ty in ftypes.items():
                     if not hasattr(r, f):
@@ -686,3 +707,14 @@ def shrink_candidates(plan):
 
 
 KNOWN = {}
+
+
+def mutate(plan, rng):
+    from ..driver import mutate_ops
+
+    p = mutate_ops(plan, rng, fix_plan)
+    if rng.random() < 0.3:
+        p["batch"] = rng.choice([1, 2, 3, 5, 1000])
+        p["alt_batch"] = rng.choice([b for b in [1, 2, 3, 5, 1000] if b != p["batch"]])
+    # keep hold/release balanced enough: a trailing close releases anyway
+    return p
